@@ -6,6 +6,7 @@ CONSTANTS
   Kinds = {"plain", "nohist"}
   UrgentAsync = FALSE
   RecLimit = 0
+  MaxChecks = 0
   Servers = {FALSE, TRUE}
 VIEW View
 INVARIANTS TypeOK C01 C02 C03 C10 C16 PosConsistent
